@@ -15,6 +15,7 @@ component clause is `C08b`.  Bases that start like a prefix without forming a co
 K3 territory and stay with the oracle.
 -/
 import TypedPathVerif.Lemmas.WinAppend
+import TypedPathVerif.Props.C04
 
 namespace TP.C04b
 
